@@ -10,6 +10,16 @@ sys.path.insert(0, HERE)
 CHECKS = {}   # filled by vf/props modules that exist: id -> (category, text, note, technique, design_ref)
 
 TABLE = {
+    "C03": ("exploration",
+            "The edge set and latency attributes of the dependency graph built by the real pipeline (parser, ISA semantics, arch semantics, KernelDG) are compared with a reference read-after-write relation computed on the generator's AST (architectural register families, flag operands, write-back, zero idioms, default destination rule), for synthetic ISA databases with random roles on synthetic latency models and for a curated real vocabulary on shipped models, with and without flag dependencies.",
+            "Trusted: vf/depgen.py (R-deps), the register family table of C12, the curated role table; flag roles of real instructions are those the shipped ISA database declares.",
+            "runtime monitoring: observed graph vs reference RAW relation on generator AST",
+            "C03"),
+    "C06": ("exploration",
+            "Edges between store and load lines of the real dependency graph are compared with a symbolic pointer-tracking reference (origin register + constant delta, unknown after any other write) on generated store/load kernels covering every addressing shape, constant bumps, copies, clobbers, AArch64 pre/post-indexed accesses in between, second stores and near-miss loads, on synthetic ISA databases and on the curated vocabulary over shipped models.",
+            "Trusted: vf/depgen.ref_store_load; address registers are modified only through their full-width name; a store's own write-back combined with later accesses through that base is don't-care.",
+            "runtime monitoring: observed store->load edges vs symbolic address-equality reference",
+            "C06"),
     "C08": ("exploration",
             "The state every instruction has after the real ArchSemantics.add_semantics (micro-ops, pressure, latency, latency without load, throughput, flags) is compared with a reference composition computed from the generated model/ISA-database dicts, on kernels that mix several composed, direct, register-only and unknown instructions in random order (fresh model object per kernel, so in-model pollution by one instruction is seen by the next); unknown instructions are additionally removed and the kernel re-analysed to show they change nothing; a curated real vocabulary on shipped models checks order/repetition independence and that pressure is the uniform split of the reported micro-ops.",
             "Trusted: vf/ref_compose.py and vf/ref_match.py; register forms without numeric data and wildcard register classes at the memory position are don't-care.",
